@@ -93,6 +93,85 @@ def unproject_ensures(s, MV, PR, vp, mode):
     return out
 
 
+def roundtrip_lemmas():
+    """staged lemmas for unproject(project(p)) == p"""
+    out = {}
+    A, B = SM.params('a', 4), SM.params('b', 4)
+    v = SV.params('v', 4)
+    out['assoc'] = L.Lemma('lemma_assoc4', A.flat() + B.flat() + v.e, [], ((A @ B) @ v).eqs(A @ (B @ v)), doc='(A*B)*v == A*(B*v)')
+    M = SM.params('m', 4)
+    out['inv_left'] = L.Lemma('lemma_inv4_left', M.flat(), [M.det().ne(0)], (inv_spec(M) @ M).eqs(SM.identity(4)),
+                              doc='(adj M / det M) * M == I')
+    N = SM.params('n', 4)
+    c = SV.params('c', 4)
+    scaled = SV([c[0] / c[3], c[1] / c[3], c[2] / c[3], ONE])
+    out['scale'] = L.Lemma('lemma_homog_scale', N.flat() + c.e, [c[3].ne(0)],
+                           [(N @ scaled)[k].eq((N @ c)[k] / c[3]) for k in range(4)],
+                           doc='N * (c / c.w) == (N * c) / c.w')
+    n, vx, vw = var('n'), var('vx'), var('vw')
+    out['vp'] = L.Lemma('lemma_viewport_roundtrip', [n, vx, vw], [vw.ne(0)],
+                        [(((((n / TWO + HALF) * vw + vx) - vx) / vw) * TWO - ONE).eq(n), ((n / TWO + HALF) * TWO - ONE).eq(n)],
+                        doc='un-viewport o viewport == id on one NDC coordinate')
+    q, w = var('q'), var('w')
+    out['div'] = L.Lemma('lemma_homog_divide', [q, w], [w.ne(0)], [((q / w) / (ONE / w)).eq(q)], doc='(q/w)/(1/w) == q')
+    return out
+
+
+def add_roundtrip(u, ms, lem):
+    MV, PR = SM.of(ms, 'mv'), SM.of(ms, 'proj')
+    vx, vy, vw, vh = vp_leaves('vp')
+    p = SV.of(V3, 'p')
+    PM = PR @ MV
+    # ghost names mirroring the lets of the viewport_to_world contract
+    lines = []
+    for i in range(4):
+        for j in range(4):
+            lines.append('    let ghost pm%d%d = %s;' % (i, j, X.verus(PM[i, j])))
+    PMv = SM.fn(4, lambda i, j: var('pm%d%d' % (i, j)))
+    lines.append('    let ghost det_pm = %s;' % X.verus(PMv.det()))
+    Aj = PMv.adj()
+    for i in range(4):
+        for j in range(4):
+            lines.append('    let ghost n%d%d = %s;' % (i, j, X.verus(Aj[i, j] / var('det_pm'))))
+    Nv = SM.fn(4, lambda i, j: var('n%d%d' % (i, j)))
+    p1 = p.ext(ONE)
+    inner = MV @ p1
+    clip = PR @ inner
+    for k in range(4):
+        lines.append('    let ghost c%d = %s;' % (k, X.verus(clip[k])))
+    cv = SV([var('c%d' % k) for k in range(4)])
+    pre_det = '({ %s det_pm != 0real })' % ' '.join(l.strip().replace('let ghost', 'let') for l in lines[:17])
+    pre_w = '%s != 0real' % X.verus(clip[3])
+    for mode in ('no', 'zo'):
+        body = '\n'.join(lines) + '\n'
+        body += ('    let img = Mat4::world_to_viewport_%s(p, mv, proj, vp);\n    let back = Mat4::viewport_to_world_%s(img, mv, proj, vp);\n'
+                 % (mode, mode))
+        pargs = ', '.join(X.verus(e) for e in p1.e)
+        pm_args = ', '.join('pm%d%d' % (i, j) for i in range(4) for j in range(4))
+        n_args = ', '.join('n%d%d' % (i, j) for i in range(4) for j in range(4))
+        c_args = 'c0, c1, c2, c3'
+        proof = ['    proof {',
+                 '        crate::lemma_assoc4(%s, %s, %s);' % (lemma_args(PR), lemma_args(MV), pargs),        # (P*MV)*p1 == P*(MV*p1) = c
+                 '        crate::lemma_inv4_left(%s);' % pm_args,                                               # N*PM == I
+                 '        crate::lemma_assoc4(%s, %s, %s);' % (n_args, pm_args, pargs),                          # (N*PM)*p1 == N*(PM*p1)
+                 '        crate::lemma_homog_scale(%s, %s);' % (n_args, c_args),
+                 '        crate::lemma_viewport_roundtrip(c0 / c3, vp.x.v@, vp.w.v@);',
+                 '        crate::lemma_viewport_roundtrip(c1 / c3, vp.y.v@, vp.h.v@);',
+                 '        crate::lemma_viewport_roundtrip(c2 / c3, vp.x.v@, vp.w.v@);']
+        proof += ['        crate::lemma_homog_divide(p.%s.v@, c3);' % f for f in 'xyz']
+        # intermediate facts spelled out for the matcher
+        NP = Nv @ (PMv @ p1)
+        for k in range(4):
+            proof.append('        assert(%s == %s);' % (X.verus((PMv @ p1)[k]), 'c%d' % k))
+        for k in range(4):
+            proof.append('        assert(%s == %s);' % (X.verus((Nv @ cv)[k]), X.verus(p1[k])))
+        proof.append('    }')
+        body = body.replace('    let img =', '\n'.join(proof) + '\n    let img =')
+        asserts = ['back.%s.v@ == p.%s.v@' % (f, f) for f in 'xyz']
+        u.add(ms.path, thm_fn('thm_roundtrip_%s_%s' % (mode, ms.layout), ['p: Vec3<R>', 'mv: Mat4<R>', 'proj: Mat4<R>', 'vp: Rect<R, R>'],
+                              ['vp.w.v@ != 0real', 'vp.h.v@ != 0real', pre_w, pre_det], body, asserts, 'C10'))
+
+
 def picking_spec(c, d, vp):
     vx, vy, vw, vh = vp
     e = [[ZERO] * 4 for _ in range(4)]
@@ -149,6 +228,7 @@ def plan(exp, tier):
     p = driver.Plan('C10')
     lp = picking_lemma()
     lems = [lp, matcore.det4_shape_lemma()]
+    rl = roundtrip_lemmas()
     for layout in ('rows', 'cols'):
         ms = mat(4, layout)
         u = vec_unit(exp, 'c10_' + layout, [V2, V3, V4], mats=MATS)
@@ -173,11 +253,12 @@ def plan(exp, tier):
         add_viewport(u, ms)
         add_picking(u, ms)
         add_theorems(u, ms, lp)
+        add_roundtrip(u, ms, rl)
+        for lm in rl.values():
+            u.add_root(lm.verus_text('C10'))
         u.add_root(lp.verus_text('C10'))
         p.add_unit('c10_' + layout, u, ['vec', 'geom', 'mat'])
         p.lemmas += lems_layout
-    p.lemmas += [lp]
-    p.not_decided += ['round trip unproject(project(p)) == p as a single theorem: both functions are proved equal to their definitions '
-                      '(projection: viewport o perspective-divide o proj*mv; unprojection: perspective-divide o (proj*mv)^-1 o un-viewport, '
-                      'with (proj*mv)^-1 = adj/det proved two-sided under C06); the composition of the two definitions is not discharged as one obligation']
+    p.lemmas += [lp] + list(rl.values())
+    p.not_decided += ['world points whose clip w is 0 (the perspective divide is undefined there; excluded by precondition of the round-trip theorem)']
     return p
